@@ -249,8 +249,20 @@ def thorough(run, prop: str):
     s = run_seeds(prop)
     info['seeded_changes'] = {'applied': s['run'], 'caught': s['caught'], 'missed': s['missed'], 'patch_no_longer_applies': s['inapplicable'],
                               'rules_that_fired': s['caught_rules']}
+    accepted = {}
     for m in s['missed']:
+        try:
+            meta = json.loads((VERIF / 'seeded' / m.split(' ')[0] / 'meta.json').read_text())
+        except Exception:
+            meta = {}
+        if meta.get('accepted_miss'):
+            accepted[m] = meta['accepted_miss']
+            run.note(f'thorough: seeded change {m} is not reported, accepted: {meta["accepted_miss"]}')
+            if not run.quiet:
+                print(f'  NOTE: seeded change {m} is not reported (accepted, see seeded/{m.split(" ")[0]}/meta.json): {meta["accepted_miss"][:160]}')
+            continue
         run.error('selftest', f'the seeded change {m} breaks {prop} but the quick check does not report a violation on it')
+    info['seeded_changes']['accepted_misses'] = accepted
     t = run_twins(prop)
     info['twins'] = {'applied': t['run'], 'silent': t['silent'], 'false_alarms': t['false_alarms'], 'inconclusive': t['inconclusive'],
                      'edit_no_longer_applies': t['inapplicable']}
